@@ -11,7 +11,7 @@ same programs and inputs (model <-> implementation <-> reference).
 from harness import common, l2common, scenarios
 
 PID = "C01"
-TRANSLATORS = ["T-jumpi", "T-consts", "T-branchpts", "T-assertbranch", "T-dispatch"]
+TRANSLATORS = ["T-jumpi", "T-consts", "T-branchpts", "T-assertbranch", "T-dispatch", "T-create2"]
 
 PLAN_QUICK = [("straight", 14), ("branch", 14), ("memory", 10), ("storage", 10), ("hash", 10), ("log", 6), ("loop", 14), ("call", 12), ("create", 14),
               ("opgrid", 32), ("callfail", 22), ("symtarget", 12), ("valuecall", 12), ("corr", 16), ("symloop", 12), ("stackops", 12), ("hashcond", 8), ("symstore", 12), ("create2", 12)]
